@@ -111,3 +111,7 @@ def run(db, ctx):
                        'all rows and all C columns, with the position it stands for (shared with R7.5)', ['R7.5'])
     from . import C03
     C03.hit_order(db, ctx, 'R2.12')
+    # the reused score buffer is iterated through its row vector by the default threshold(): stale rows after a shrinking resize are scanned again (seed C02-9)
+    from . import C19
+    common.shared_rule(db, ctx, C19.storage_rules, 'R2.13', 'every change of a DenseMatrix row count goes with the same change of its row vector (shared with R19.2 / R19.5)', ['R19.2', 'R19.5'])
+    common.shared_rule(db, ctx, C04.stripe_rules, 'R2.14', 'the striped matrix the scanner scores is the sequence (shared with R4.1 - R4.4)', ['R4.1', 'R4.2', 'R4.3', 'R4.4'])
